@@ -1259,10 +1259,11 @@ fn round_notime(seed: u64, tot: &Mutex<Tot>, prop: &str) {
             for c in 0..3usize {
                 let target = r.below(2) as usize;
                 let h = if r.chance(50) { H::D(refs[target].clone()) } else { H::E(Box::new(ES::from_ref(refs[target].clone(), &sh))) };
+                let erased = matches!(h, H::E(_));
                 sh.model_add(target, 1, "slot-init");
                 let sh2 = sh.clone();
                 let mut cr = Rng::new(r.next());
-                cl.push(tokio::spawn(async move {
+                cl.push((erased, tokio::spawn(async move {
                     for _ in 0..4 {
                         let mut steps = vec![];
                         if cr.chance(40) {
@@ -1286,10 +1287,16 @@ fn round_notime(seed: u64, tot: &Mutex<Tot>, prop: &str) {
                     }
                     drop(h);
                     sh2.model_add(target, -1, "drop");
-                }));
+                })));
             }
-            for c in cl {
-                let _ = c.await;
+            for (erased, c) in cl {
+                if let Err(e) = c.await {
+                    if e.is_panic() {
+                        // plain tell/ask need no timer: a panic in the caller is a failure of the call itself
+                        let msg = panic_payload_to_string(e.into_panic().as_ref());
+                        sh.viol(format!("{} a client using {} handles on a runtime without a time driver panicked inside a tell/ask: {msg}", if erased { "C16" } else { "C03" }, if erased { "type-erased" } else { "direct" }));
+                    }
+                }
             }
             for (i, rf) in refs.iter().enumerate() {
                 let h = H::D(rf.clone());
@@ -1824,6 +1831,115 @@ fn round_metricsrace(seed: u64, hb: &Heartbeat, tot: &Mutex<Tot>, prop: &str) {
 }
 
 // ---------------------------------------------------------------------------------------------
+// undriven: the actor lives on a current-thread runtime whose owner only drives it until the actor's JoinHandle has resolved
+// (`rt.block_on(join_handle)`) and then keeps the runtime alive without driving it. Askers outside that runtime (plain threads
+// with a foreign executor, the blocking API) whose requests were queued when the actor ended must get their error from the
+// ending actor itself - nothing that would have to run on that runtime later can be relied upon (C03).
+// ---------------------------------------------------------------------------------------------
+fn round_undriven(seed: u64, hb: &Heartbeat, tot: &Mutex<Tot>, prop: &str) {
+    use dr::*;
+    let mut r = Rng::new(seed);
+    let cap = 4 + r.below(6) as usize;
+    let nask = 1 + r.below(cap as u64 - 1) as usize;
+    let cause = r.below(3); // 0 kill, 1 stop (queued asks are answered, later ones fail), 2 handler panic
+    let interval = if r.chance(70) { 1 } else { 61 };
+    let bucket0 = hb.now_bucket();
+    let (done_tx, done_rx) = std::sync::mpsc::channel::<(usize, bool)>();
+    let (ended_tx, ended_rx) = std::sync::mpsc::channel::<bool>();
+    let (release_tx, release_rx) = std::sync::mpsc::channel::<()>();
+    let started = Arc::new(AtomicU64::new(0));
+    let started2 = started.clone();
+    let owner = std::thread::spawn(move || {
+        let rt = tokio::runtime::Builder::new_current_thread().enable_time().event_interval(interval).build().unwrap();
+        let (a, jh) = {
+            let _g = rt.enter();
+            rsactor::spawn_with_mailbox_capacity::<A>(None, cap)
+        };
+        // a slow first request keeps the actor busy while the outside requests queue up behind it
+        let a0 = a.clone();
+        rt.spawn(async move {
+            let _ = a0.ask(Slow(40)).await;
+        });
+        rt.block_on(async { tokio::time::sleep(Duration::from_millis(5)).await });
+        let mut ths = vec![];
+        for k in 0..nask {
+            let (a2, tx, st) = (a.clone(), done_tx.clone(), started2.clone());
+            let via_blocking = k % 2 == 1;
+            ths.push(std::thread::spawn(move || {
+                st.fetch_add(1, Ordering::SeqCst);
+                let ok = if via_blocking { a2.blocking_ask(Ping(k as u64), None).is_ok() } else { futures::executor::block_on(a2.ask(Ping(k as u64))).is_ok() };
+                let _ = tx.send((k, ok));
+            }));
+        }
+        // give the outside threads time to enqueue (the mailbox has room for all of them), then end the actor
+        while started2.load(Ordering::SeqCst) < nask as u64 {
+            std::thread::yield_now();
+        }
+        std::thread::sleep(Duration::from_millis(10));
+        match cause {
+            0 => {
+                let _ = a.kill();
+            }
+            1 => {
+                let a1 = a.clone();
+                rt.spawn(async move {
+                    let _ = a1.stop().await;
+                });
+            }
+            _ => {
+                let a1 = a.clone();
+                rt.spawn(async move {
+                    let _ = a1.tell(Boom).await;
+                });
+            }
+        }
+        let ended = rt.block_on(async { tokio::time::timeout(Duration::from_secs(10), jh).await.is_ok() });
+        let _ = ended_tx.send(ended);
+        // the runtime stays alive, nobody drives it
+        let _ = release_rx.recv_timeout(Duration::from_secs(30));
+        drop(a);
+        rt.shutdown_background();
+        for t in ths {
+            let _ = t.join();
+        }
+    });
+    let ended = ended_rx.recv_timeout(Duration::from_secs(20)).unwrap_or(false);
+    let mut got = vec![];
+    let t0 = Instant::now();
+    while got.len() < nask && t0.elapsed() < Duration::from_secs(10) {
+        if let Ok(x) = done_rx.recv_timeout(Duration::from_millis(100)) {
+            got.push(x);
+        }
+    }
+    let stalled = hb.max_late_since(bucket0) > STALL_US;
+    let missing = nask - got.len();
+    let _ = release_tx.send(());
+    let mut t = tot.lock().unwrap();
+    t.rounds += 1;
+    t.hashes.insert(mix(cap as u64 * 16 + nask as u64, cause * 2 + (interval == 1) as u64));
+    *t.nontrivial.entry("C03".into()).or_default() += 1;
+    if !ended {
+        if !stalled {
+            t.inconclusive.push(format!("undriven round {seed}: the actor did not end within 10 s"));
+        }
+        drop(t);
+        let _ = owner.join();
+        return;
+    }
+    *t.obl.entry("C03.complete").or_default() += nask as u64;
+    if missing > 0 && !stalled && (prop == "all" || prop == "C03" || prop == "C12") {
+        t.viol.push((
+            "C03.complete".into(),
+            format!("[undriven-runtime] the actor (capacity {cap}, ended by {}) lived on a current-thread runtime that was driven only until its JoinHandle resolved (event_interval {interval}); {missing} of {nask} asks from outside threads that were queued in its mailbox at that moment were still waiting 10 s later", ["kill", "stop", "a handler panic"][cause as usize]),
+            seed,
+            "undriven".into(),
+        ));
+    }
+    drop(t);
+    let _ = owner.join();
+}
+
+// ---------------------------------------------------------------------------------------------
 // abort: the actor's JoinHandle is resolved by `JoinHandle::abort()` while strong references exist.
 // Whatever made the handle resolve, "is_alive() is false once its JoinHandle has resolved, after which
 // every send fails" (C11) and "every ask still pending on it and every later ask returns an Err" (C03).
@@ -2225,6 +2341,13 @@ mod dr {
             panic!("scripted handler panic (death race)");
         }
     }
+    pub struct Slow(pub u64);
+    impl Message<Slow> for A {
+        type Reply = ();
+        async fn handle(&mut self, m: Slow, _: &ActorRef<Self>) {
+            tokio::time::sleep(std::time::Duration::from_millis(m.0)).await;
+        }
+    }
 }
 
 const SLOT_IDLE: u64 = 0;
@@ -2602,6 +2725,16 @@ pub fn cmd_mt(a: &Args) -> i32 {
                     }
                 }
             }
+            "undriven" => {
+                let mut n = 0u64;
+                while tp.elapsed() < per_profile {
+                    n += 1;
+                    round_undriven(mix(base, ((pi as u64) << 56) ^ n), &hb, &tot, &prop);
+                    if !tot.lock().unwrap().viol.is_empty() {
+                        break;
+                    }
+                }
+            }
             "abort" => {
                 let mut n = 0u64;
                 while tp.elapsed() < per_profile {
@@ -2668,7 +2801,7 @@ pub fn cmd_mt(a: &Args) -> i32 {
     #[cfg(feature = "f_testutils")]
     {
         let d = rsactor::dead_letter_count() - dl0;
-        if !tainted.load(Ordering::Relaxed) && profiles.iter().all(|p| p != "spawnstorm" && p != "tightrace" && p != "starve" && p != "mutualask" && p != "abort" && p != "reentrant" && p != "dropspin" && p != "metricsrace") {
+        if !tainted.load(Ordering::Relaxed) && profiles.iter().all(|p| p != "spawnstorm" && p != "tightrace" && p != "starve" && p != "mutualask" && p != "abort" && p != "reentrant" && p != "dropspin" && p != "metricsrace" && p != "undriven") {
             *t.obl.entry("C13.counter").or_default() += 1;
             t.extra.insert("dead_letter_count_delta".into(), d);
             let fl = t.failures;
